@@ -341,6 +341,10 @@ def run(ck):
               "consumer must keep popping until the queue is empty -- a consumer that stops earlier leaves entries behind with their wake-up "
               "already consumed",
               key_pred=lambda k: "Tcp::Transport" in k or k in ("Queue::push", "PollableQueue::push", "PollableQueue::pop"), min_instances=6)
+    ck.borrow("C08", ["C08-R16"], "C09-R9",
+              "every client that connects is served: the acceptor thread is told about a pending connection until it has accepted it (the "
+              "listening socket is level-triggered, the accept loop takes one connection per wake-up and keeps running after a failed accept)",
+              min_instances=1)
     ck.borrow("C14", ["C14-R5"], "C09-R8",
               "the server's transport hands every ready set on to Tcp::Transport::onReady, also when its own periodic timer is in it: peer "
               "sockets are edge-triggered, an event that is not handled is not reported again and the request is never answered",
